@@ -319,7 +319,7 @@ def exit_agreement(ctx, log, ns, label, payload_fn):
 
 def make_comp(seed, k):
     rng = gen.rng_for('C12comp', seed, k)
-    comp = workloads.Composition(rng, force_all_actions=True)
+    comp = workloads.Composition(rng, force_all_actions=True, dense=(k % 4 == 1))
     if k % 3 == 0:  # make sure both exit parts are present in a share of the compositions
         if Exit not in comp.types:
             comp.types.append(Exit)
